@@ -447,7 +447,7 @@ fn audit<E: Engine>(e: &E, n: u64) -> i32 {
 }
 
 fn args_need_warm_up() -> bool {
-    matches!(std::env::args().nth(1).as_deref(), Some("worker") | Some("replay") | Some("audit") | Some("firstrun"))
+    matches!(std::env::args().nth(1).as_deref(), Some("worker") | Some("replay") | Some("replay-exec") | Some("audit") | Some("firstrun"))
 }
 
 fn main() {
@@ -469,7 +469,7 @@ fn main() {
             dispatch!(args[1].as_str(), e => run_driver(e, tier))
         }
         "worker" => dispatch!(args[1].as_str(), e => run_worker_cmd(e, &args[1..])),
-        "replay" => {
+        "replay" | "replay-exec" => {
             let text = std::fs::read_to_string(&args[1]).unwrap_or_else(|e| {
                 println!("HARNESS-ERROR cannot read {}: {}", args[1], e);
                 std::process::exit(EXIT_HARNESS);
@@ -479,7 +479,28 @@ fn main() {
                 std::process::exit(EXIT_HARNESS);
             });
             let prop = rf.property.clone();
-            dispatch!(prop.as_str(), e => replay(e, &rf))
+            if rf.violation.kind == "process_died" && args[0] == "replay" {
+                // The scenario kills the process that executes it: execute it in a child and report.
+                let exe = std::env::current_exe().expect("current_exe");
+                let st = Command::new(&exe).args(["replay-exec", &args[1]]).status();
+                match st {
+                    Ok(s) if s.code() == Some(EXIT_OK) => {
+                        println!("replay: NOT REPRODUCED (the scenario completed without killing its process)");
+                        EXIT_OK
+                    }
+                    Ok(s) if s.code() == Some(EXIT_VIOLATION) => EXIT_VIOLATION,
+                    Ok(s) => {
+                        println!("VIOLATION property={} replay=(reproduced)\n  kind=process_died signature=process_died\n  the process executing the scenario died again: {}", prop, s);
+                        EXIT_VIOLATION
+                    }
+                    Err(e) => {
+                        println!("HARNESS-ERROR cannot run child: {}", e);
+                        EXIT_HARNESS
+                    }
+                }
+            } else {
+                dispatch!(prop.as_str(), e => replay(e, &rf))
+            }
         }
         "audit" => {
             let n: u64 = args.get(2).and_then(|s| s.parse().ok()).unwrap_or(200);
